@@ -185,12 +185,12 @@ def enumerate_shapes(tier, seed):
         shapes.append(Shape(64, "i", []))
         shapes.append(Shape(61, "s", [16])); shapes.append(Shape(62, "b", [64])); shapes.append(Shape(63, "sb", [32, 32]))
     if tier != "quick":
-        # memory: with two or more blobs of symbolic content the formula grows to 7-11 GB per obligation; the thorough tier
-        # keeps the multi-blob shapes whose blob lengths add up to <= 4 (the quick tier keeps its few larger ones)
-        def heavy(sh):
-            bl = [l for t, l in zip([t for t in sh.tags if t in "sSb"], sh.lens) if t == "b"]
-            return len(bl) >= 2 and sum(bl) >= 5
-        shapes = [sh for sh in shapes if not heavy(sh)]
+        # memory: with two or more blobs of symbolic content the formula grows to 7-11 GB per obligation and a 62 GB machine
+        # was OOM-killed; the thorough tier therefore drops its own multi-blob shapes and takes over the quick tier's
+        # (few, measured) ones, so that thorough is a superset of quick
+        def nblobs(sh):
+            return sum(1 for t in sh.tags if t == "b")
+        shapes = [sh for sh in shapes if nblobs(sh) < 2] + enumerate_shapes("quick", seed)
     seen, out = set(), []
     for s in shapes:
         if s.key() not in seen:
